@@ -102,8 +102,10 @@ def run_mutants(prop: str, repo: str, base_keys: set[str], workers: int = 16) ->
             "not_applicable": [r["id"] for r in res if r["status"] == "not-applicable"], "results": res}
 
 
-def run_neutral(prop: str, repo: str, base_rc: int, base_keys: set[str], workers: int = 16) -> dict[str, T.Any]:
-    from .neutral import VARIANTS
+def run_neutral(prop: str, repo: str, base_rc: int, base_keys: set[str], workers: int = 16, only: list[str] | None = None) -> dict[str, T.Any]:
+    from .neutral import VARIANTS as ALL_VARIANTS
+
+    VARIANTS = [v for v in ALL_VARIANTS if only is None or v["id"] in only]
 
     def one(v: dict[str, T.Any]) -> dict[str, T.Any]:
         tmp = make_copy(repo)
@@ -117,8 +119,8 @@ def run_neutral(prop: str, repo: str, base_rc: int, base_keys: set[str], workers
             rc, keys, rules, out = run_check(prop, tmp)
             same = keys == base_keys and rc == base_rc
             err = [l for l in out.splitlines() if "ANALYSIS-ERROR" in l][:2]
-            return {"id": v["id"], "status": "silent" if same else "ALARM", "exit": rc, "extra_keys": sorted(keys - base_keys)[:4],
-                    "lost_keys": sorted(base_keys - keys)[:4], "errors": err}
+            return {"id": v["id"], "status": "silent" if same else "ALARM", "exit": rc, "extra_keys": sorted(keys - base_keys)[:40],
+                    "lost_keys": sorted(base_keys - keys)[:10], "errors": err}
         finally:
             shutil.rmtree(tmp, ignore_errors=True)
 
@@ -135,15 +137,26 @@ def selftest(prop: str, repo: str) -> dict[str, T.Any]:
 
 if __name__ == "__main__":
     sys.path.insert(0, VERIF)
-    from selftest.harness import selftest as st  # noqa
+    from selftest import harness as H  # noqa
 
-    props = sys.argv[1].split(",") if len(sys.argv) > 1 else [f"C{i:02d}" for i in range(1, 21)]
+    args = [a for a in sys.argv[1:] if not a.startswith("--")]
+    only = None
+    skip_mut = "--no-mutants" in sys.argv
+    for a in sys.argv[1:]:
+        if a.startswith("--neutral="):
+            only = a.split("=", 1)[1].split(",")
+    props = args[0].split(",") if args else [f"C{i:02d}" for i in range(1, 21)]
     repo = os.environ.get("HCVERIF_REPO", "/repo")
     for p in props:
-        r = st(p, repo)
-        m, n = r["mutants"], r["neutral"]
+        base_rc, base_keys, _, _ = H.run_check(p, repo)
+        m = {"fired": 0, "total": 0, "not_applicable": [], "missed": []} if skip_mut else H.run_mutants(p, repo, base_keys)
+        n = H.run_neutral(p, repo, base_rc, base_keys, only=only)
         print(f"{p}: mutants fired {m['fired']}/{m['total'] - len(m['not_applicable'])} (n/a {len(m['not_applicable'])}); neutral silent {n['silent']}/{n['total'] - len(n['not_applicable'])} (n/a {len(n['not_applicable'])})")
         for x in m["missed"]:
             print(f"    MISSED {x['id']} exit={x['exit']} expected {x['expected_rule']} new={x['new_keys']}")
         for x in n["alarms"]:
-            print(f"    ALARM  {x['id']} exit={x['exit']} extra={x['extra_keys']} lost={x['lost_keys']} {x['errors']}")
+            print(f"    ALARM  {x['id']} exit={x['exit']} {x['errors']}")
+            for k in x["extra_keys"]:
+                print(f"        + {k}")
+            for k in x["lost_keys"]:
+                print(f"        - {k}")
